@@ -239,9 +239,18 @@ def check_who_may_call(model, rep):
         raise _Unknown(src(e))
 
     def bexec(stmts, env, val, st):
+        def relevant(node):
+            return any(isinstance(c, ast.Call) and (method_name(c) == '_compile_with_out' or src(c.func) == 'self.compile') for c in ast.walk(node)) or \
+                any(isinstance(n_, ast.Name) and n_.id in env for n_ in ast.walk(node))
         for s_ in stmts:
             if isinstance(s_, ast.If):
-                bexec(s_.body if bev(s_.test, env, val, st) else s_.orelse, env, val, st)
+                try:
+                    taken = bev(s_.test, env, val, st)
+                except _Unknown:
+                    if relevant(s_):
+                        raise
+                    continue    # a test that has nothing to do with the in-place decision (e.g. index bookkeeping)
+                bexec(s_.body if taken else s_.orelse, env, val, st)
             elif isinstance(s_, ast.Assign) and len(s_.targets) == 1 and isinstance(s_.targets[0], ast.Name) and isinstance(s_.value, (ast.BoolOp, ast.Compare, ast.UnaryOp, ast.Constant)) \
                     and (isinstance(s_.value, (ast.BoolOp, ast.Compare)) or (isinstance(s_.value, ast.UnaryOp) and isinstance(s_.value.op, ast.Not)) or isinstance(getattr(s_.value, 'value', None), bool)):
                 env[s_.targets[0].id] = bev(s_.value, env, val, st)
